@@ -51,6 +51,7 @@ func linGen(r *rand.Rand, thorough bool) dbCase {
 		knobs.UnlockYield = r.Intn(3) == 0
 		c.Sessions = append(c.Sessions, dbSession{Opts: opts, Clients: clients, Knobs: knobs})
 	}
+	c.OddName = r.Intn(8) == 0
 	return c
 }
 
@@ -121,6 +122,7 @@ func checkLinearizable(hist []*opRec, timeout time.Duration) (verdict string, ba
 }
 
 func runLinCase(c *Ctx, dc dbCase, tape *simrt.Tape) dbsimOutcome {
+	c.oddNames = dc.OddName
 	dir := freshDir(c, "db")
 	defer os.RemoveAll(dir)
 	r := newDBRunner(c.T, dir, tape, dc.Keys)
